@@ -82,10 +82,11 @@ Count(seq, x) == Cardinality({i \in DOMAIN seq : seq[i] = x})
 BagEq(a, b) == Len(a) = Len(b) /\ \A x \in Range(a) \cup Range(b) : Count(a, x) = Count(b, x)
 
 (********************* 2. the abstract decode value ***********************)
-\* [t: struct|array|scalar, names (struct: field names in INPUT order), kids, kind, a (actual), sym, desc, gap, syn, bits, inv]
+\* [t: struct|array|scalar, names (struct: field names in INPUT order), kids, kind, a (actual), sym, desc, gap, syn, bits, inv,
+\*  nroot (the value is the root of a nested buffer, as gzip's uncompressed or an ogg packet)]
 V(t, names, kids, kind, a, sym) ==
     [t |-> t, names |-> names, kids |-> kids, kind |-> kind, a |-> a, sym |-> sym,
-     desc |-> "", gap |-> FALSE, syn |-> FALSE, bits |-> "", inv |-> FALSE]
+     desc |-> "", gap |-> FALSE, syn |-> FALSE, bits |-> "", inv |-> FALSE, nroot |-> FALSE]
 Sc(kind, a, sym) == V("scalar", <<>>, <<>>, kind, a, sym)
 St(names, kids)  == V("struct", names, kids, "", NoSym, NoSym)
 Ar(kids)         == V("array", <<>>, kids, "", NoSym, NoSym)
@@ -326,7 +327,10 @@ FieldOrder(q, a, b) ==
                                        ELSE a.out[i] = b.out[i]
          [] q.ord = "derived" -> Len(a.out) = Len(b.out)
 \* UnderscoreKeys: underscore-prefixed extra keys are readable on v (whatever the JSON side says)
-UnderscoreKeys(q, a, b) == ~a.err \/ Same(a, b)
+\* (reading one never fails; `has` with such a key still fails where `has` itself does not apply, as on a number)
+\* (reading one from the decode value itself never fails; `has` with such a key still fails where `has` does not apply,
+\*  as on a number, and the elements of a scalar holding a JSON array are plain JSON values)
+UnderscoreKeys(q, a, b) == IF q.m = "key" \/ q.id \in {"ext_parent_name", "ext_root_type"} THEN ~a.err ELSE ~a.err \/ Same(a, b)
 \* NullOnNonObject: string-key lookup on a non-object yields null on v, an error on the JSON side
 NullOnNonObject(q, a, b) ==
     /\ ~a.err /\ a.out = <<q.nk>>
@@ -376,7 +380,7 @@ DiffClass(q, v, a, b) ==
     IF ~ToValueOK(q, v, b) THEN "tovalue"
     ELSE IF Documented(q, v, a, b) THEN (IF InputOrderOK(q, v, a) THEN "underscore_key_missing" ELSE "input_order")
     ELSE IF Rel(q, v) = "nullkey" THEN "null_on_non_object"
-    ELSE IF Rel(q, v) = "ext" THEN "underscore_key_unreadable"
+    ELSE IF Rel(q, v) = "ext" THEN (IF v.nroot /\ q.sa \in {"_bits", "_bytes"} THEN "nested_root_bits" ELSE "underscore_key_unreadable")
     ELSE IF HasAnyObj(v) /\ q.ord # "none" /\ a.err = b.err THEN "order_anyobj"     \* gojqx.Object walks a Go map
     ELSE IF a.err /\ ~b.err THEN "dv_error"
     ELSE IF b.err /\ ~a.err THEN "jv_error"
@@ -388,6 +392,7 @@ DiffClass(q, v, a, b) ==
 RejectSig(q, v, a, b) ==
     LET c == DiffClass(q, v, a, b) IN
     IF c = "order_anyobj" THEN "view.any_object_iteration_order"
+    ELSE IF c = "nested_root_bits" THEN "view.underscore_bits_of_nested_root"
     ELSE "view." \o q.shape \o "." \o c \o "." \o VClass(v)
 
 \* model layer (as built, drift only): the dv-side result of a query that is a direct view of one method
